@@ -353,3 +353,57 @@ def write_evidence(ctx, level, coverage, assumptions, violations):
 def short(s, n=160):
     s = str(s)
     return s if len(s) <= n else s[:n] + "...(%d chars)" % len(s)
+
+
+# --------------------------------------------------------------------------
+# the command-line tool, built from the working tree
+
+def build_lha(ctx, sanitize=True, name="lha", extra_flags=(), wrap=()):
+    """Compile /repo/src/*.c + /repo/lib/*.c into ctx.tmp (TEST_BUILD: TEST_NOW_TIME is honoured).
+    `wrap`: libc symbols to interpose with --wrap (the shim source must be given in extra_flags)."""
+    bdir = os.path.join(ctx.tmp, name + "-build")
+    os.makedirs(bdir, exist_ok=True)
+    san = SAN_FLAGS if sanitize else ["-O1", "-g"]
+    inc = ["-I", REPO, "-I", os.path.join(REPO, "lib"), "-I", os.path.join(REPO, "lib", "public"),
+           "-I", os.path.join(REPO, "src"), "-DHAVE_CONFIG_H", "-DTEST_BUILD", "-w"]
+    srcs = [os.path.join(REPO, "lib", f) for f in lib_sources()] + \
+           sorted(os.path.join(REPO, "src", f) for f in os.listdir(os.path.join(REPO, "src")) if f.endswith(".c"))
+    jobs, objs = [], []
+    for s in srcs:
+        o = os.path.join(bdir, os.path.basename(os.path.dirname(s)) + "_" + os.path.basename(s)[:-2] + ".o")
+        objs.append(o)
+        jobs.append(["clang"] + san + inc + ["-c", s, "-o", o])
+    extra_objs = []
+    for x in extra_flags:
+        if x.endswith(".c"):
+            o = os.path.join(bdir, "x_" + os.path.basename(x)[:-2] + ".o")
+            extra_objs.append(o)
+            jobs.append(["clang"] + san + inc + ["-c", x, "-o", o])
+    with ThreadPoolExecutor(JOBS) as ex:
+        res = list(ex.map(_cc, jobs))
+    errs = [e for rc, e in res if rc != 0]
+    if errs:
+        return None, "\n".join(errs)[-4000:]
+    exe = os.path.join(bdir, name)
+    wl = ["-Wl," + ",".join("--wrap=" + w for w in wrap)] if wrap else []
+    rc, err = _cc(["clang"] + san + wl + objs + extra_objs + ["-o", exe])
+    if rc != 0:
+        return None, err[-4000:]
+    return exe, ""
+
+
+def run_cli(exe, args, cwd, stdin_data=None, env=None, timeout=60):
+    """returns (rc, stdout bytes, stderr text, verdict) – verdict 'ok' | 'CRASH …' | 'TIMEOUT'"""
+    e = dict(os.environ)
+    e.update(SAN_ENV)
+    e.update({"TZ": "UTC", "LC_ALL": "C"})
+    if env:
+        e.update(env)
+    try:
+        r = subprocess.run([exe] + list(args), cwd=cwd, input=stdin_data, capture_output=True, env=e, timeout=timeout)
+    except subprocess.TimeoutExpired:
+        return -999, b"", "", "TIMEOUT"
+    se = r.stderr.decode(errors="replace")
+    if r.returncode in (98, 99) or r.returncode < 0 or "Sanitizer" in se or "runtime error" in se:
+        return r.returncode, r.stdout, se, summarize_crash(r.returncode, se)
+    return r.returncode, r.stdout, se, "ok"
